@@ -459,7 +459,7 @@ def gen_cases(rng, tier):
     for n in range(0, 7):
         for mask in itertools.product([False, True], repeat=n):
             for m in SINGLES:
-                for lim in LIMITS:
+                for lim in (LIMITS if (not quick or n <= 5) else [None, 1 + t % 3]):      # quick: length 6 with None and one rotating limit
                     t += 1
                     cases.append(mk(vec_rows(mask), 1, 'date' if t % 3 == 0 else 'range', kind='fill', methods=[m], limit=lim, mlist=(t % 5 == 0)))
     # A2. +-inf are non-NaN cells: every pattern over {NaN, finite, +inf, -inf} of length 0..4 (0..5 thorough)
@@ -467,13 +467,15 @@ def gen_cases(rng, tier):
         for pat in itertools.product('NVPM', repeat=n):
             if 'P' not in pat and 'M' not in pat:
                 continue
+            if quick and n == 4 and (hash(pat) if False else sum(map(ord, pat)) + pat.count('N')) % 2:
+                continue                                  # quick: every other length-4 pattern
             for m in SINGLES:
                 for lim in (LIMITS if (not quick or n <= 2) else [None, 1 + t % 3] if n == 3 else [LIMITS[t % 4]]):
                     t += 1
                     cases.append(mk(tern_rows(pat), 1, 'date' if t % 3 == 0 else 'range', kind='fill', methods=[m], limit=lim, mlist=(t % 5 == 0)))
     # B. method lists
     if quick:
-        for _ in range(1800):
+        for _ in range(1500):
             n = rng.choice([rng.randrange(0, 7), rng.randrange(0, 11)]); k = rng.choice([1, 1, 2, 3])
             ms = [rand_method(rng) for _ in range(rng.choice([2, 2, 2, 3, 0]))]
             cases.append(decorate(rng, mk(rand_rows(rng, n, k), k, rng.choice(IDXS), rng, kind='fill', methods=ms, limit=rng.choice(RLIMITS))))
@@ -491,7 +493,7 @@ def gen_cases(rng, tier):
             ms = [rand_method(rng) for _ in range(rng.choice([2, 2, 3, 4, 0]))]
             cases.append(decorate(rng, mk(rand_rows(rng, n, k), k, rng.choice(IDXS), rng, kind='fill', methods=ms, limit=rng.choice(RLIMITS))))
     # C. frames and longer vectors, single methods
-    for _ in range(1500 if quick else 20000):
+    for _ in range(1300 if quick else 20000):
         k = rng.choice([1, 2, 2, 3]); n = rng.randrange(0, 11) if k > 1 else rng.randrange(7, 11)
         cases.append(decorate(rng, mk(rand_rows(rng, n, k), k, rng.choice(IDXS), rng, kind='fill', methods=[rand_method(rng)],
                         limit=rng.choice(RLIMITS), mlist=rng.random() < 0.2)))
